@@ -10,7 +10,7 @@ from .common import ANN
 
 META = dict(
     level="model_checking",
-    technique="bounded symbolic execution (z3) of StatisticalContinuumSampler (init_sampling, init_sampling_custom, sample_from_continuum) under a nondeterministic RNG stub; parameter data-flow read off the RNG call log",
+    technique="bounded symbolic execution (z3; reals, plus one IEEE binary64 configuration in the FloatingPoint theory) of StatisticalContinuumSampler (init_sampling, init_sampling_custom, sample_from_continuum) under a nondeterministic RNG stub; parameter data-flow read off the RNG call log",
     design_ref="section 4 / C15",
     claim="For ALL outcomes of the random draws within the bound (any real value for every normal draw, any category of non-zero weight), all custom "
           "parameter values and all reference coordinates: drawing a sample raises nothing, the sample is non-empty, has exactly the ground-truth "
@@ -18,12 +18,14 @@ META = dict(
           "data-flow is the documented one: the unit count of each annotator is |trunc| of a draw of normal(avg_nb, std_nb) (at least 1 while the sample "
           "is empty), each start is the previous end plus a draw of normal(avg_gap, std_gap), each duration is |draw| of normal(avg_dur, std_dur), "
           "each label a draw of choice(categories, p=weights), with the supplied numbers in custom mode and, in measured mode, mean/std of units per "
-          "annotator, mean/std of durations and label frequencies of the reference.",
+          "annotator, mean/std of durations and label frequencies of the reference. In IEEE binary64 arithmetic (ieee configuration: one annotator, 1-2 units, every "
+          "normal draw any finite double of magnitude <= 2^40): the draw raises nothing and every emitted segment is longer than the precision after the rounding "
+          "of start = last + gap and end = start + duration.",
     trusted="z3; RNG stub contract; np.std modelled as an uninterpreted value >= 0 applied to the logged argument list (numpy computes it correctly); "
             "distributional goodness of fit over many draws is statistics, not a solver question: outside the claim",
     bounds=dict(quick="1 annotator x <= 2 units or 2 annotators x <= 1 unit per draw, <= 2 redraws of a duration, 2 categories; "
-                      "custom mode (all 6 parameters symbolic) and measured mode on references (1,1),(2,1)",
-                thorough="3 annotators x <= 1 unit, 2 x <= 2, 1 x <= 3; measured mode on (2,2),(1,1,1) and ground-truth subsets"),
+                      "custom mode (all 6 parameters symbolic) and measured mode on references (1,1),(2,1); IEEE mode: 1 annotator x 1 unit, <= 2 redraws",
+                thorough="3 annotators x <= 1 unit, 2 x <= 2, 1 x <= 3; measured mode on (2,2),(1,1,1) and ground-truth subsets; IEEE mode: 1 annotator x 2 units"),
     outside="goodness of fit of the empirical distributions; numpy's generators; more than 3 units per annotator per draw; the gap statistic's exact "
             "definition (the code's own: first-unit offsets included) is only checked for being what is passed to the RNG",
     stubs=["np.random.normal/choice = fresh symbolic draws, logged with their arguments", "np.std = fresh value >= 0 (argument list logged)",
